@@ -164,6 +164,24 @@ def index_map(ctx, rule="C11.index-map"):
             if isinstance(n, ast.Assign) and len(n.targets) == 1 and isinstance(n.targets[0], ast.Name) and \
                     isinstance(n.value, ast.Call) and dotted(n.value.func) in ("np.identity", "np.eye", "np.zeros"):
                 nets.add(n.targets[0].id)
+        # the net MATRIX (initialised as an identity) is only ever replaced by a product with the whole of it: no block of it is
+        # assigned in place (an operation on some modes transforms whole ROWS of the net matrix, not the block of those modes)
+        mats = {n.targets[0].id for n in walk_no_nested(f.node) if isinstance(n, ast.Assign) and len(n.targets) == 1 and
+                isinstance(n.targets[0], ast.Name) and isinstance(n.value, ast.Call) and dotted(n.value.func) in ("np.identity", "np.eye")}
+        first_loop = min([x.lineno for x in walk_no_nested(f.node) if isinstance(x, ast.For)] or [0])
+        for st in walk_no_nested(f.node):
+            tg = st.targets if isinstance(st, ast.Assign) else [st.target] if isinstance(st, ast.AugAssign) else []
+            for t_ in tg:
+                if isinstance(t_, ast.Subscript) and isinstance(t_.value, ast.Name) and t_.value.id in mats:
+                    # (helper matrices such as U_expand are also identities: only a matrix that is multiplied into itself is a net)
+                    is_net = any(isinstance(x, ast.Assign) and isinstance(x.targets[0], ast.Name) and x.targets[0].id == t_.value.id and
+                                 isinstance(x.value, ast.BinOp) and isinstance(x.value.op, ast.MatMult) for x in walk_no_nested(f.node)) \
+                        or any(isinstance(x, ast.Call) and dotted(x.func) in HELPERS and
+                               any(isinstance(a, ast.Name) and a.id == t_.value.id for a in x.args) for x in walk_no_nested(f.node))
+                    if is_net:
+                        ctx.ob(rule, f.site, False, f"`{ast.unparse(st)[:60]}` assigns a block of the net matrix in place: the operation "
+                               "must multiply whole rows (couplings of its modes to the other modes are left untransformed)",
+                               role="no-block-store", line=st.lineno)
         for nd in rd.cfg.nodes:
             st = nd.ast
             if nd.kind != "stmt" or not isinstance(st, ast.Assign) or not isinstance(st.value, ast.BinOp) or \
